@@ -80,6 +80,23 @@ C09_Spacing(s, e) ==
          d.strat.frequency >= 0 => (NT(<<"C09", "spacing", e.state.now - hist.lastPodSync[e.rs]>>) /\ e.state.now - hist.lastPodSync[e.rs] >= d.strat.frequency)
 P_C09s == [][Step(C09_Spacing)]_vars
 
+\* Frame: the recorded state after a reconcile is the recorded state before it changed by the recorded writes and by nothing else
+\* (pods no write names are unchanged, deleted pods are gone or terminating, created pods exist, nodes are untouched, replica sets
+\* come and go only through the ExtendedDaemonSet reconcile).  This is a consistency condition of the HARNESS (projection and write
+\* log agree), not a property of the code: a violation is reported as a machinery error.
+PodCore(p) == <<p.id, p.ns, p.node, p.hash, p.phase, p.ready, p.term, p.clabel, p.owner, p.ownerRS, p.restarts>>
+Frame(s, e) ==
+    (e.ev \in {"ERSReconcile", "EDSReconcile", "SettingReconcile", "PodTemplateReconcile"}) =>
+      LET touched == { w.id : w \in { x \in Writes(e) : x.kind = "Pod" } } IN
+        /\ \A p \in Pods(s) : p.id \notin touched => \E q \in Pods(e.state) : PodCore(q) = PodCore(p)
+        /\ \A q \in Pods(e.state) : q.id \notin touched => \E p \in Pods(s) : PodCore(q) = PodCore(p)
+        /\ \A w \in Writes(e) : (w.kind = "Pod" /\ w.verb = "delete" /\ w.ok /\ w.inj = "" /\ HasPod(s, w.id)) =>
+               (~HasPod(e.state, w.id) \/ PodOf(e.state, w.id).term)
+        /\ \A w \in Writes(e) : (w.kind = "Pod" /\ w.verb = "create" /\ w.ok /\ w.inj = "") => HasPod(e.state, w.id)
+        /\ e.state.nodes = s.nodes
+        /\ (e.ev # "EDSReconcile") => { r.id : r \in RSs(s) } = { r.id : r \in RSs(e.state) }
+P_Frame == [][Step(Frame)]_vars
+
 \* conformance of recorded reconciles with the decision procedures of the model (measured, not convicting)
 ConfCount(s, e) ==
     IF Conf_Applies(s, e)
